@@ -29,6 +29,11 @@ fn props() -> Vec<PropDef> {
         arena_sensitive: false,
     });
     v.push(PropDef {
+        id: "C18",
+        run: props::c18::run,
+        arena_sensitive: false,
+    });
+    v.push(PropDef {
         id: "C19",
         run: props::c19::run,
         arena_sensitive: false,
@@ -89,6 +94,7 @@ fn main() {
             let sample_every: u64 = args[7].parse().expect("sample_every");
             let mut tape_out: Option<PathBuf> = None;
             let mut keep = false;
+            let mut stride: u64 = 1;
             let mut i = 8;
             while i < args.len() {
                 match args[i].as_str() {
@@ -97,12 +103,16 @@ fn main() {
                         i += 1;
                     }
                     "--keep" => keep = true,
+                    "--stride" => {
+                        stride = args[i + 1].parse().expect("stride");
+                        i += 1;
+                    }
                     _ => {}
                 }
                 i += 1;
             }
             let scratch = scratch_dir();
-            for index in first..first + count {
+            for index in (first..first + count).step_by(stride.max(1) as usize) {
                 {
                     let out = std::io::stdout();
                     let mut out = out.lock();
